@@ -97,7 +97,10 @@ def run(here, repo, pid, names, tier, seed):
             out['undecided'].append('bounded stand-in produced no summary: ' + err)
         also = (ALSO if name == 'graph' else PIE_ALSO if name == 'pie' else {}).get(pid, ())
         for r in vio:
-            if r['property'] == pid or r['obligation'] in also:
+            # an oracle of this property that fails only on histories with aborted builds is re-attributed to C19 by the engine, which
+            # keeps the oracle's name in brackets: it still is a failure of this property's oracle
+            wrapped = r['obligation'] == 'C19.bounded.builds_after_an_abort_are_sound' and ('[%s.' % pid) in r.get('what', '')
+            if r['property'] == pid or r['obligation'] in also or wrapped:
                 if name == 'graph':
                     out['violations'].append({'obligation': r['obligation'], 'unit': 'bounded:graph', 'backend': 'bounded enumeration of the real crate',
                                               'diagnostics': [{'message': r['what'], 'at': [json.dumps(r['ops'])], 'gen_lines': []}],
